@@ -58,6 +58,12 @@ def tok_chars(t, pfx, sym, V, assume):
             for c in cs: assume.append(z3.Or(z3.And(z3.UGE(c, 48), z3.ULE(c, 57)), z3.And(z3.UGE(c, 97), z3.ULE(c, 102))))
             if k == 'hex' and cs: assume.append(z3.UGE(cs[0], 97))          # bare hex must not read as a decimal number
         return (list(b'0x') if k == 'hex0x' else []) + cs, cs
+    if k == 'hexL':
+        # long 0x literal: concrete bytes 0xab except the last one (two symbolic hex digits)
+        cs = [var('%sh%d' % (pfx, i)) for i in range(2)]
+        if sym:
+            for c in cs: assume.append(z3.Or(z3.And(z3.UGE(c, 48), z3.ULE(c, 57)), z3.And(z3.UGE(c, 97), z3.ULE(c, 102))))
+        return list(b'0x') + list(b'ab' * (t[1] - 1)) + cs, cs
     if k == 'dec':
         cs = [var('%sd%d' % (pfx, i)) for i in range(t[1])]
         if sym:
@@ -85,6 +91,9 @@ def compile_tok(ctx, t, pfx, sym, V):
         cs = [var('%sh%d' % (pfx, i)) for i in range(2 * t[1])]
         data = [z3.simplify((hexv(cs[2 * i]) << 4) | hexv(cs[2 * i + 1])) for i in range(t[1])]
         return minimal_push(ctx, data)
+    if k == 'hexL':
+        cs = [var('%sh%d' % (pfx, i)) for i in range(2)]
+        return minimal_push(ctx, [0xab] * (t[1] - 1) + [z3.simplify((hexv(cs[0]) << 4) | hexv(cs[1]))])
     if k == 'dec':
         cs = [var('%sd%d' % (pfx, i)) for i in range(t[1])]
         v = z3.BitVecVal(0, 64)
@@ -101,6 +110,7 @@ def tname(t):
     k = t[0]
     if k in ('op', 'lit'): return t[1]
     if k in ('hex0x', 'hex'): return ('0x' if k == 'hex0x' else '') + '??' * t[1]
+    if k == 'hexL': return '0x(%d bytes)' % t[1]
     if k == 'dec': return ('-' if t[2] else '') + '#' * t[1]
     return '[' + ' '.join(tname(u) for u in t[1]) + ']'
 
@@ -129,6 +139,9 @@ def obligations(tier, seed):
     add([('br', [('op', 'OP_1')])]); add([('br', [('hex0x', 1)])]); add([('br', [('hex0x', 2), ('op', 'OP_ADD')])]); add([('br', [('dec', 2, 0), ('op', 'OP_EQUAL')])])
     add([('br', [('br', [('hex0x', 1)])])]); add([('br', [('br', [('br', [('dec', 1, 0)])]), ('op', 'OP_DROP')])]); add([('br', [('hex', 20)]), ('op', 'OP_EQUAL')])
     add([('br', [('hex', 1)]), ('br', [('dec', 1, 1)])])
+    # long literals and long sub-scripts through the whole pipeline: every push form (direct 75, PUSHDATA1 76..255, PUSHDATA2 256..)
+    for n in (75, 76, 255, 256, 520, 521): add([('hexL', n)]); add([('br', [('hexL', n), ('op', 'OP_DROP')])])
+    add([('br', [('br', [('hexL', 74)])])]); add([('br', [('br', [('hexL', 253)]), ('op', 'OP_SIZE')])])
     return obs
 
 def prep(ob, V=None):
@@ -165,7 +178,7 @@ def prep(ob, V=None):
         sc = []
         for i, t in enumerate(toks): sc += compile_tok(ctx, t, 't%d' % i, sym, V or {})
         return dict(hex=to_hex(sc))
-    return 'w_btcc', [('in', req), ('out', 1400)], io, ref, assume, dict(syms=syms)
+    return 'w_btcc', [('in', req), ('out', 2400)], io, ref, assume, dict(syms=syms)
 
 def run(E, ob):
     fn, spec, io, ref, assume, inputs = prep(ob)
@@ -185,6 +198,7 @@ def values(ob, cex):
         names = []
         def walk(t, pfx):
             if t[0] in ('hex0x', 'hex'): names.extend('%sh%d' % (pfx, i) for i in range(2 * t[1]))
+            elif t[0] == 'hexL': names.extend('%sh%d' % (pfx, i) for i in range(2))
             elif t[0] == 'dec': names.extend('%sd%d' % (pfx, i) for i in range(t[1]))
             elif t[0] == 'br':
                 for i, u in enumerate(t[1]): walk(u, pfx + 'b%d' % i)
